@@ -23,7 +23,8 @@ pub struct Cell1(pub u64);
 pub fn concrete_id(c: u8) -> ResourceId {
     match c {
         0 => ResourceId::new_with_dynamic_id::<Cell0>(0),
-        1 => ResourceId::new_with_dynamic_id::<Cell0>(1),
+        // (concrete 1 and 3 share the NON-ZERO dynamic id 7 across the two Rust types: an id is the pair)
+        1 => ResourceId::new_with_dynamic_id::<Cell0>(7),
         2 => ResourceId::new_with_dynamic_id::<Cell1>(0),
         3 => ResourceId::new_with_dynamic_id::<Cell1>(7),
         4 => ResourceId::new_with_dynamic_id::<Cell0>(0x1_0000_0001),
@@ -603,6 +604,16 @@ pub struct KReadC;
 pub struct KWriteC;
 pub struct KReadAWriteC;
 pub struct KOptReadA;
+pub struct KDerOptReadAWriteC;
+/// derived bundle used as a controller's declared data
+#[derive(shred::SystemData)]
+pub struct CtrlDer<'a> {
+    pub a: Option<Read<'a, Cell0>>,
+    pub c: Write<'a, Cell1>,
+}
+impl CtrlKind for KDerOptReadAWriteC {
+    type Data<'c> = CtrlDer<'c>;
+}
 impl CtrlKind for KOptReadA {
     type Data<'c> = Option<Read<'c, Cell0>>;
 }
